@@ -111,6 +111,7 @@ type Exec struct {
 	curCall  *ssa.CallCommon
 	entryEnv *Env
 	lockIDs  map[string]int
+	curReach Term // reach condition of the instruction being executed: path facts are assumed under it
 	curBlock *ssa.BasicBlock
 	curIdx   int
 	only     []string
@@ -700,6 +701,7 @@ func (x *Exec) runBlock(fr *Frame, b *ssa.BasicBlock, back map[[2]int]bool) {
 	rc := x.sc.freshConst(fmt.Sprintf("reach_%s_b%d", fr.fn.Name(), b.Index), "Bool")
 	x.sc.assert(eq(rc, reach))
 	reach = rc
+	x.curReach = reach
 	st := x.mergeStates(ins)
 	fr.reach[b.Index] = reach
 
@@ -736,6 +738,7 @@ func (x *Exec) runBlock(fr *Frame, b *ssa.BasicBlock, back map[[2]int]bool) {
 			x.curPos = in.Pos()
 		}
 		x.curBlock, x.curIdx = b, ii
+		x.curReach = reach
 		switch t := in.(type) {
 		case *ssa.If:
 			c := x.val(fr, t.Cond).S
@@ -1007,6 +1010,17 @@ func splitGoal(goal Term) []Term {
 
 // keepThin: in thin units (flags only_<prefix>) only obligations whose label starts with one of the
 // prefixes are generated (lock obligations belong to prefix "locks").
+// assumeHere adds a fact about values of the current program point. It is guarded by the reach
+// condition of that point: on the other paths the merged state terms are arbitrary, and an
+// unguarded fact about them would constrain the inputs of those paths (vacuity).
+func (x *Exec) assumeHere(t Term) {
+	if x.curReach == "" || x.curReach == "true" {
+		x.sc.assert(t)
+		return
+	}
+	x.sc.assert(implies(x.curReach, t))
+}
+
 func (x *Exec) keepThin(kind, label string) bool {
 	if x.flags["lockonly"] && len(x.only) == 0 {
 		x.only = []string{"locks"}
